@@ -116,7 +116,7 @@ def main():
         "setup_cmd": "bin/setup.sh",
         "hooks": {
             "guard": "verif",
-            "enable": "go build -tags verif -overlay build/overlay.json (bin/build.sh): the overlay ADDS /repo/vm/zz_verif_export.go (//go:build verif, kept in /verif/overlays) and substitutes the dependency file aspect-core/djpm/run/runner.go by a scripted stub (not in build/vcheck-real, which links the real runner); build/vcheck-map additionally replaces the Go runtime's map.go by a copy with an iteration-start seam; no file exists under /repo",
+            "enable": "go build -tags verif -overlay build/overlay.json (bin/build.sh): the overlay ADDS /repo/vm/zz_verif_export.go (//go:build verif, kept in /verif/overlays; overlays/vm_export.go.txt, or its reflective fallback vm_export_min.go.txt when the primary no longer compiles against /repo's private recorder fields) and substitutes the dependency file aspect-core/djpm/run/runner.go by a scripted stub (not in build/vcheck-real, which links the real runner); build/vcheck-map additionally replaces the Go runtime's map.go by a copy with an iteration-start seam; no file exists under /repo",
             "baseline_off_cmd": "cd /repo && GOFLAGS=-mod=mod GOPROXY=off GOSUMDB=off GOTOOLCHAIN=local go test -json -vet=off -count=1 -timeout 25m ./...",
             "source_commits": [],
             "add_only": True,
